@@ -127,6 +127,46 @@ def body(run):
                     expc = g * s + o
                 if not fz.same_arrays(res['corr']['array'][i], expc):
                     problems[f'corrected band {i + 1} != gain * source + offset'] = fz.first_diff(res['corr']['array'][i], expc)
+        # the third band group holds R2 = 1 - RSS / TSS of the applied (gain, offset) over the kernel window (float64 re-computation, loose tolerance:
+        # this is about the band being there and being the R2 of THIS band pair, the exact formula is C01's)
+        XY = None
+        if res['proc_crs'] == 'ref':
+            off = pair['off']
+            s_proc = pair['src'][0].reshape(ph, pair['ratio'], pw, pair['ratio']).mean(axis=(1, 3)).astype('float64')
+            X = np.full(pair['geom'].ref_shape, NAN)
+            X[off[0]:off[0] + ph, off[1]:off[1] + pw] = np.where(pair['pm'], s_proc, NAN)
+            XY = (X, lambda b: np.where(pair['rmask'], ref[b].astype('float64'), NAN))
+        elif family == 'same':
+            off = pair['off']
+            XY = (np.where(pair['smask'], pair['src'][0].astype('float64'), NAN),
+                  lambda b: np.where(pair['rmask'], ref[b].astype('float64'), NAN)[off[0]:off[0] + ph, off[1]:off[1] + pw])
+        if XY is not None and P['count'] == 3 * n:
+            X = XY[0]
+            for i in range(n):
+                Y = XY[1](rb[i] - 1)
+                G, O, R2 = (P['array'][i].astype('float64'), P['array'][n + i].astype('float64'), P['array'][2 * n + i].astype('float64'))
+                jm = ~np.isnan(X) & ~np.isnan(Y)
+                worst = None
+                n_expected = n_present = 0
+                for (r, c) in np.argwhere(jm & np.isfinite(G) & np.isfinite(O)):
+                    r0, r1 = max(0, r - kshape[0] // 2), min(X.shape[0], r + kshape[0] // 2 + 1)
+                    c0, c1 = max(0, c - kshape[1] // 2), min(X.shape[1], c + kshape[1] // 2 + 1)
+                    w = jm[r0:r1, c0:c1]
+                    xs, ys = X[r0:r1, c0:c1][w], Y[r0:r1, c0:c1][w]
+                    tss = float(((ys - ys.mean()) ** 2).sum())
+                    if len(ys) < 3 or tss < 1.0 * len(ys):
+                        continue           # ill-conditioned window: not judged
+                    n_expected += 1
+                    if not np.isfinite(R2[r, c]):
+                        continue
+                    n_present += 1
+                    r2 = 1.0 - float(((ys - (G[r, c] * xs + O[r, c])) ** 2).sum()) / tss
+                    if abs(R2[r, c] - r2) > 5e-3 * (1 + abs(r2)) and worst is None:
+                        worst = dict(band=2 * n + i + 1, pixel=[int(r), int(c)], stored=float(R2[r, c]), recomputed=r2)
+                if n_expected and n_present < n_expected:
+                    problems[f'R2 band {2 * n + i + 1} is missing values'] = dict(expected_pixels=n_expected, finite_pixels=n_present)
+                elif worst:
+                    problems['R2 band differs from 1 - RSS / TSS of the stored gain and offset'] = worst
         if not acc:
             problems['rejected by validate_param_image / ParamStats'] = desc.get('validator_error')
         if problems:
@@ -137,7 +177,7 @@ def body(run):
     run.cov['rule'] = ('real fusions of 1..4 identical source bands against reference bands scaled by distinct factors, with permuted band selections, '
                        '3 models, both grids, 1..9 blocks: description suffix of every parameter band, acceptance by validate_param_image + ParamStats, '
                        'the band holding gain / offset of matched band i (identified by its factor) checked in Coq against param_index; parameter '
-                       'mask = joint mask; on the source grid corrected == gain * source + offset bit for bit; non-trivial = >= 2 matched bands')
+                       'mask = joint mask; R2 band = 1 - RSS / TSS of the stored gain and offset (float64 re-computation, 5e-3); on the source grid corrected == gain * source + offset bit for bit; non-trivial = >= 2 matched bands')
     run.extra['input_distribution'] = dict(runs=dist, model_nontrivial=nt)
     run.trusted += ['GDAL nearest re-projection of parameters on aligned grids; band descriptions / tags I/O']
     run.finish()
